@@ -187,6 +187,28 @@ def fmt_float_concrete(v, f, ty='f64', exp=None):
     return s
 
 
+def fmt_float_exp(v, ty, upper):
+    """Rust's {:e}: shortest round-trip digits, one digit before the point, exponent without sign padding"""
+    if v != v:
+        return 'NaN'
+    if v in (float('inf'), float('-inf')):
+        return 'inf' if v > 0 else '-inf'
+    if v == 0:
+        return '0e0'
+    if ty == 'f32':
+        import numpy
+        r = numpy.format_float_scientific(numpy.float32(v), unique=True, trim='-')
+    else:
+        import numpy
+        r = numpy.format_float_scientific(numpy.float64(v), unique=True, trim='-')
+    mant, exp = r.split('e')
+    if mant.endswith('.'):
+        mant = mant[:-1]
+    e = int(exp)
+    out = '%s%s%d' % (mant, 'E' if upper else 'e', e)
+    return out
+
+
 def display_value(I, v, ty, kind, f):
     """append the formatting of value v (type text ty) to f.buf"""
     while type(v) is Ref:
@@ -235,7 +257,8 @@ def display_value(I, v, ty, kind, f):
         if tv is Sym:
             raise Unmodelled('formatting of a symbolic float (no float-to-text model)')
         if kind in ('lower_exp', 'upper_exp'):
-            raise Unmodelled('float exponent formatting')
+            f.buf.extend(pad(I, f, list(fmt_float_exp(v, ty if ty in ('f32', 'f64') else 'f64', kind == 'upper_exp').encode()), True))
+            return
         f.buf.extend(pad(I, f, list(fmt_float_concrete(v, f, ty if ty in ('f32', 'f64') else 'f64').encode()), True))
         return
     if tv is Opaque or tv is FnRef:
